@@ -6,7 +6,7 @@ SEED=$(realpath "$1"); PROP=$2; TIER=${3:-quick}
 VROOT=$(cd "$(dirname "$(realpath "$0")")/.." && pwd)   # the /verif checkout this script lives in (a worktree in parallel work)
 WT=/work/try/$PROP-$$/repo
 mkdir -p "$(dirname "$WT")"
-git -C /repo worktree add -q --detach "$WT" HEAD || exit 2
+git -C /repo worktree add -q --detach "$WT" "${SEED_BASE:-HEAD}" || exit 2
 cleanup() { git -C /repo worktree remove --force "$WT" 2>/dev/null; rm -rf "$(dirname "$WT")"; }
 trap cleanup EXIT
 echo "== demo on unchanged tree"; (cd "$WT" && PYTHONPATH="$WT/src" /venv/bin/python "$SEED/demo.py" 2>&1 | grep -v conda | tail -2); echo "exit=$?"
